@@ -13,6 +13,7 @@ import (
 	"net"
 	"net/http"
 	"os"
+	"strings"
 	"sync"
 	"testing"
 	"time"
@@ -386,6 +387,28 @@ func runHistory(r *vkit.R, id int, g *vkit.Rand, longWait bool, hungProbe bool) 
 			kind = []string{"endpoint-remove", "cluster-delete"}[id%2]
 		}
 	}
+	// Host names of cluster A. In half of the cluster deletions the object also lists alias names
+	// (secureServing.serverNames; nothing validates that list): two aliases, possibly repeated, in other letter case, and
+	// the cluster's own name. Every name the cluster was reachable under must answer 503 after the deletion.
+	namesA := []string{nameA}
+	if kind == "cluster-delete" && !hungProbe && g.Chance(0.5) {
+		a1, a2 := fmt.Sprintf("alias1-%d.c15.test", id), fmt.Sprintf("alias2-%d.c15.test", id)
+		pool := []string{a1, a2, a1, nameA, strings.ToUpper(nameA), strings.ToUpper(a2), a2}
+		perm := g.Perm(len(pool))
+		var list []string
+		for _, i := range perm[:g.Range(2, len(pool))] {
+			list = append(list, pool[i])
+		}
+		objA.Spec.SecureServing.ServerNames = list
+		seen := map[string]bool{nameA: true}
+		for _, n := range list {
+			if l := strings.ToLower(n); !seen[l] {
+				seen[l] = true
+				namesA = append(namesA, l)
+			}
+		}
+		r.Count("cluster_deletions_with_alias_names", 1)
+	}
 	withE1Disabled := func() *proxyv1alpha1.UpstreamCluster {
 		o := objA.DeepCopy()
 		for i := range o.Spec.Servers {
@@ -515,7 +538,7 @@ func runHistory(r *vkit.R, id int, g *vkit.Rand, longWait bool, hungProbe bool) 
 			if timing == "early" {
 				phase = "early"
 			}
-			st := &stream{Cluster: nameA, User: fmt.Sprintf("a-e%d", s), Stub: s, Mode: mode, Role: "target", Phase: phase}
+			st := &stream{Cluster: namesA[g.Intn(len(namesA))], User: fmt.Sprintf("a-e%d", s), Stub: s, Mode: mode, Role: "target", Phase: phase}
 			h.open(st)
 			targets = append(targets, st)
 		}
@@ -576,27 +599,64 @@ func runHistory(r *vkit.R, id int, g *vkit.Rand, longWait bool, hungProbe bool) 
 		r.Count("streams_still_proxied_to_the_disabled_endpoint_at_removal", stillOpen)
 	}
 
+	// every alias routes before the deletion (otherwise the 503 afterwards would show nothing)
+	for _, n := range namesA[1:] {
+		if status, got := h.shortRequest(n, "a-any", fmt.Sprintf("c15-%d-alias-before-%s", id, n)); status == 200 && got >= 0 {
+			r.Count("alias_requests_forwarded_before_the_deletion", 1)
+		} else {
+			h.fail(fmt.Sprintf("request to alias %s of the cluster got status %d before the deletion", n, status))
+			return
+		}
+	}
+	// In a third of the endpoint removals the removing update ALSO adds a server for which no client can be built: the sync
+	// fails half-way and asks for a requeue (re-delivered up to 3 times, as the queue would). The object is the latest
+	// one, E1 is not in its list: all clauses hold for E1 from the moment the first removing sync returned.
+	failing := ""
+	if kind == "endpoint-remove" && !hungProbe && g.Chance(0.35) {
+		failing = "/with-failing-add"
+	}
+
 	// ---- the removal ----
 	t0 := bed.Now()
 	var sr bed.SyncResult
 	if kind == "cluster-delete" {
 		sr = h.gw.Delete(nameA)
 	} else {
-		sr = h.gw.Apply(h.clusterObjectWithPolicies(nameA, "a", h.aStubs, urls(h, h.aStubs[1:]), nil))
+		servers := urls(h, h.aStubs[1:])
+		if failing != "" {
+			servers = append(servers, []string{"http://[::1", "http://a b", "http://bad host:6443"}[g.Intn(3)])
+		}
+		sr = h.gw.Apply(h.clusterObjectWithPolicies(nameA, "a", h.aStubs, servers, nil))
 	}
 	tRemoved := bed.Now()
-	if sr.Err != nil || sr.Panic != nil || sr.Requeue {
+	if failing != "" {
+		requeues := 0
+		for sr.Panic == nil && sr.Requeue && requeues < 3 {
+			requeues++
+			item, ok, _ := h.gw.Indexer.GetByKey(nameA)
+			if !ok {
+				break
+			}
+			sr = h.gw.Deliver(item.(*proxyv1alpha1.UpstreamCluster))
+		}
+		if sr.Panic != nil {
+			h.fail(fmt.Sprintf("controller panicked on a removing update that also adds an unbuildable server: %v", sr.Panic))
+			return
+		}
+		r.Count("endpoint_removals_with_failing_add", 1)
+		r.Count("endpoint_removals_with_failing_add_redeliveries", requeues)
+	} else if sr.Err != nil || sr.Panic != nil || sr.Requeue {
 		h.fail(fmt.Sprintf("controller did not apply the removal: %+v", sr))
 		return
 	}
 	wit := func(st *stream, detail interface{}) witness {
-		return witness{History: id, Kind: kind + retire, Pre: pre, A: h.aStubs, B: h.bStubs, Shared: h.shared, Timing: timing, Stream: st, Detail: detail, Streams: len(h.streams), RemoveMs: float64(tRemoved-t0) / 1e6}
+		return witness{History: id, Kind: kind + retire + failing, Pre: pre, A: h.aStubs, B: h.bStubs, Shared: h.shared, Timing: timing, Stream: st, Detail: detail, Streams: len(h.streams), RemoveMs: float64(tRemoved-t0) / 1e6}
 	}
 	r.Eval(1)
 	r.Count("histories", 1)
 	r.Count("removal_"+kind, 1)
 	r.Count("timing_"+timing, 1)
-	r.Distinct(vkit.Hash64(kind, timing, pre, retire, fmt.Sprint(nA, nB, h.shared, hungProbe), streamShape(h.streams)))
+	r.Distinct(vkit.Hash64(kind, timing, pre, retire, failing, fmt.Sprint(len(namesA)), fmt.Sprint(nA, nB, h.shared, hungProbe), streamShape(h.streams)))
 	if pre != "none" && kind == "endpoint-remove" {
 		r.Count("endpoint_removals_after_disable_enable", 1)
 		if longWait {
@@ -634,7 +694,7 @@ func runHistory(r *vkit.R, id int, g *vkit.Rand, longWait bool, hungProbe bool) 
 				r.Violation(fmt.Sprintf("C15/cluster-delete/new-request-status-%d", status), fmt.Sprintf("request %s to the deleted cluster got status %d instead of 503", rid, status), wit(nil, d))
 			}
 		case cluster == nameA && got == e1:
-			r.Violation("C15/endpoint-remove/new-request-forwarded-to-removed-endpoint", fmt.Sprintf("request %s (user %s) sent after the removing sync returned was forwarded to the removed endpoint (stub %d)", rid, u, got), wit(nil, d))
+			r.Violation("C15/endpoint-remove/new-request-forwarded-to-removed-endpoint"+failing, fmt.Sprintf("request %s (user %s) sent after the removing sync returned was forwarded to the removed endpoint (stub %d)", rid, u, got), wit(nil, d))
 		case cluster == nameA && u != fmt.Sprintf("a-e%d", e1):
 			r.Count("new_requests_to_remaining_endpoints", 1)
 			if status != 200 || got < 0 {
@@ -644,6 +704,31 @@ func runHistory(r *vkit.R, id int, g *vkit.Rand, longWait bool, hungProbe bool) 
 			r.Count("new_requests_to_other_cluster", 1)
 			if status != 200 || got < 0 {
 				r.Violation("C15/"+kind+"/unaffected-target-refused/other-cluster", fmt.Sprintf("request %s to the other cluster got status %d, received by stub %d", rid, status, got), wit(nil, d))
+			}
+		}
+	}
+
+	// (a) for a deleted cluster: EVERY name it was reachable under (own name, each alias; other letter case, with a port)
+	if kind == "cluster-delete" {
+		for ni, n := range namesA {
+			for vi, host := range []string{n, strings.ToUpper(n), n + ":6443"} {
+				rid := fmt.Sprintf("c15-%d-name%d-%d", id, ni, vi)
+				status, got := h.shortRequest(host, "a-any", rid)
+				r.Count("new_requests_to_every_name_of_the_deleted_cluster", 1)
+				d := map[string]interface{}{"request": rid, "host": host, "names_of_the_cluster": namesA, "server_names_in_object": objA.Spec.SecureServing.ServerNames, "status": status, "received_by_stub": got}
+				which := "own-name"
+				if ni > 0 {
+					which = "alias"
+				}
+				switch {
+				case status == -1:
+					h.fail("client error on a short request to the in-process gateway")
+					return
+				case got >= 0:
+					r.Violation("C15/cluster-delete/new-request-forwarded/"+which, fmt.Sprintf("request %s for host %q (a name of the deleted cluster; serverNames %q) sent after the deleting sync returned was forwarded to stub %d (status %d)", rid, host, objA.Spec.SecureServing.ServerNames, got, status), wit(nil, d))
+				case status != 503:
+					r.Violation(fmt.Sprintf("C15/cluster-delete/new-request-status-%d/%s", status, which), fmt.Sprintf("request %s for host %q (a name of the deleted cluster; serverNames %q) got status %d instead of 503", rid, host, objA.Spec.SecureServing.ServerNames, status), wit(nil, d))
+				}
 			}
 		}
 	}
@@ -724,7 +809,7 @@ func runHistory(r *vkit.R, id int, g *vkit.Rand, longWait bool, hungProbe bool) 
 			} else if uOpen {
 				side = "both-sides-left-open"
 			}
-			r.Violation(fmt.Sprintf("C15/%s/in-flight-not-cancelled/%s/%s%s", kind, st.Phase, side, retire),
+			r.Violation(fmt.Sprintf("C15/%s/in-flight-not-cancelled/%s/%s%s%s", kind, st.Phase, side, retire, failing),
 				fmt.Sprintf("%s: a request (%s, user %s, stub %d, phase %s) that was being proxied to the removed target was not ended %v after the removing sync returned (client side open=%v, chunks so far %d; upstream request open=%v) while %d control streams kept delivering data",
 					kind, st.Mode, st.User, st.Stub, st.Phase, promptD, cOpen, chunks, uOpen, len(controls)),
 				wit(st, map[string]interface{}{"status": status, "chunks": chunks, "client_open": cOpen, "upstream_open": uOpen}))
@@ -784,7 +869,7 @@ func runHistory(r *vkit.R, id int, g *vkit.Rand, longWait bool, hungProbe bool) 
 				} else if pre != "none" && s == e1 {
 					class = "idle-at-removal-after-disable-enable"
 				}
-				r.Violation(fmt.Sprintf("C15/%s/probe-after-removal/%s", kind, class),
+				r.Violation(fmt.Sprintf("C15/%s/probe-after-removal/%s%s", kind, class, failing),
 					fmt.Sprintf("%s: the stub of the removed target logged %d /healthz probe(s) %v ms after the removing sync returned (class %s; probes within the first %v are not counted)", kind, len(late), late, class, settle),
 					wit(nil, map[string]interface{}{"stub": s, "probe_ms_after_removal": late, "class": class}))
 			}
@@ -838,7 +923,7 @@ func TestCheck(t *testing.T) {
 			"them, removed endpoint -> never receives them; (b) every request that was being proxied to the removed target ends on the client side AND at the stub within 5 s while all control " +
 			"streams keep delivering data; control streams (other cluster, other endpoints of A, B's stream to the same upstream) stay open and carry data; (c) no /healthz probe reaches the " +
 			"removed target later than 500 ms after the sync although TriggerHealthCheck is called on the retained EndpointInfo (some histories wait 6 s: ticker and probe timeout; some remove " +
-			"the target while its probe hangs; in 45% of the histories - and in all long-wait ones - the endpoint had been disabled (at creation or later) and enabled again before, so its checker was restarted by a spec update; in 40% of the endpoint removals the endpoint is first marked disabled by one update while the streams run and removed by the next); (d) the other cluster and the remaining endpoints answer new requests. Extra histories with the production bearer-token wiring (token-review / access-review webhooks over the controller, cache TTL > 0): reviews before, removal of the endpoint that served the first review (or cluster delete), then requests with new tokens: no TokenReview / SubjectAccessReview / proxied request may reach the removed target. Distinct = hash(removal kind, timing, topology, stream shapes).")
+			"the target while its probe hangs; in 45% of the histories - and in all long-wait ones - the endpoint had been disabled (at creation or later) and enabled again before, so its checker was restarted by a spec update; in 40% of the endpoint removals the endpoint is first marked disabled by one update while the streams run and removed by the next); (d) the other cluster and the remaining endpoints answer new requests. A third of the endpoint removals also add a server for which no client can be built (sync fails half-way, re-delivered 3 times); half of the cluster deletions list alias names (repeated, other case, own name) and every name, in variants, must answer 503 afterwards. Extra histories with the production bearer-token wiring (token-review / access-review webhooks over the controller, cache TTL > 0): reviews before, removal of the endpoint that served the first review (or cluster delete), then requests with new tokens: no TokenReview / SubjectAccessReview / proxied request may reach the removed target. Distinct = hash(removal kind, timing, topology, stream shapes).")
 		r.Assume("the 5 s promptness bound is judged only while the control streams of the same history deliver data (otherwise inconclusive)")
 		r.Assume("a probe logged by a stub within 500 ms after the removing sync returned is taken as already in flight when the sync returned")
 		r.Assume("not placed: a removal while the TCP dial to the upstream is still pending")
@@ -882,6 +967,8 @@ func TestCheck(t *testing.T) {
 		r.Require(r.Counter("new_requests_to_deleted_cluster") >= int64(tierN(r, 100, 1200)) && r.Counter("new_requests_to_remaining_endpoints") >= int64(tierN(r, 50, 600)), "too few new requests after removal")
 		r.Require(r.Counter("removed_targets_probe_checked") >= int64(tierN(r, 100, 1200)), "too few removed targets checked for probes")
 		r.Require(r.Counter("long_waits_after_removal") >= int64(long), "too few long waits after removal")
+		r.Require(r.Counter("endpoint_removals_with_failing_add") >= int64(tierN(r, 10, 120)), "too few endpoint removals whose update also adds an unbuildable server")
+		r.Require(r.Counter("cluster_deletions_with_alias_names") >= int64(tierN(r, 15, 150)) && r.Counter("alias_requests_forwarded_before_the_deletion") >= int64(tierN(r, 20, 200)), "too few cluster deletions with alias names")
 		r.Require(r.Counter("streams_still_proxied_to_the_disabled_endpoint_at_removal") >= int64(tierN(r, 20, 250)), "too few streams were still being proxied to an endpoint that was disabled and then removed")
 		r.Require(r.Counter("endpoint_removals_after_disable_enable") >= int64(tierN(r, 15, 200)), "too few endpoint removals whose endpoint had been disabled and enabled before")
 		r.Require(r.Counter("endpoint_removals_after_disable_enable_with_long_wait") >= int64(tierN(r, 2, 10)), "too few endpoint removals after disable/enable followed by a > 5 s wait")
